@@ -94,24 +94,22 @@ pub struct Known {
     pub what: String,
 }
 
+/// known_findings.txt, one finding per line:
+///   fixed: property=<id> <commit> <what failed>            (suppresses nothing)
+///   known: property=<id> signature=`<sig>` <what fails>    (cases failing with exactly this
+///                                                           signature are counted, not reported)
 pub fn load_known(verif_root: &str, property: &str) -> Vec<Known> {
-    let path = format!("{}/known_findings.jsonl", verif_root);
+    let path = format!("{}/known_findings.txt", verif_root);
     let mut out = vec![];
     if let Ok(txt) = std::fs::read_to_string(&path) {
         for line in txt.lines() {
             let line = line.trim();
-            if line.is_empty() || line.starts_with('#') {
-                continue;
-            }
-            if let Ok(v) = serde_json::from_str::<Value>(line) {
-                if v["status"] == "known" && v["property"] == property {
-                    out.push(Known {
-                        property: property.to_string(),
-                        signature: v["signature"].as_str().unwrap_or("").to_string(),
-                        what: v["what"].as_str().unwrap_or("").to_string(),
-                    });
-                }
-            }
+            let Some(rest) = line.strip_prefix("known:") else { continue };
+            let rest = rest.trim();
+            let Some(rest) = rest.strip_prefix(&format!("property={} ", property)) else { continue };
+            let Some(rest) = rest.trim().strip_prefix("signature=`") else { continue };
+            let Some(end) = rest.find('`') else { continue };
+            out.push(Known { property: property.to_string(), signature: rest[..end].to_string(), what: rest[end + 1..].trim().to_string() });
         }
     }
     out
@@ -746,6 +744,12 @@ pub fn replay_file(p: &Property, path: &str, tier: Tier) -> Result<(), ReplayErr
     let txt = std::fs::read_to_string(path).map_err(|e| ReplayErr::Bad(format!("read: {e}")))?;
     let v: Value = serde_json::from_str(&txt).map_err(|e| ReplayErr::Bad(format!("json: {e}")))?;
     let part = v["part"].as_str().ok_or(ReplayErr::Bad("no part".into()))?;
+    // enumerated parts decode indices per tier: replay under the tier the case was found in
+    let tier = match v["tier"].as_str() {
+        Some("thorough") => Tier::Thorough,
+        Some("quick") => Tier::Quick,
+        _ => tier,
+    };
     for pt in &p.parts {
         if pt.name() == part {
             return pt.replay(&v["case"], tier).map_err(|m| {
